@@ -119,7 +119,8 @@ func parseDir(s string) dir {
 		return d
 	}
 	d.letter = s[i]
-	d.ok = !rep && delims <= 1
+	// a width or precision beyond what fmt accepts (10^6) is not a directive
+	d.ok = !rep && delims <= 1 && d.width <= 1000000 && d.prec <= 1000000
 	return d
 }
 
@@ -621,6 +622,8 @@ func refInt(i int64, d dir) string {
 		base = 16
 	case 'o':
 		base = 8
+	case 'b', 'B':
+		base = 2
 	}
 	mag := magnitude(i)
 	// "The result of converting a zero value with a precision of zero is no characters."
@@ -635,8 +638,8 @@ func refInt(i int64, d dir) string {
 	prefix := ""
 	if d.sharp {
 		switch d.letter {
-		case 'x', 'X':
-			// "a nonzero result has 0x (or 0X) prefixed to it"
+		case 'x', 'X', 'b', 'B':
+			// "a nonzero result has 0x (or 0X) prefixed to it" (likewise 0b, 0B: C23)
 			if mag != 0 {
 				prefix = "0" + string(d.letter)
 			}
@@ -1125,7 +1128,9 @@ func exec(c px.Context, op string, args []sx.Sexp) core.Result {
 		} else if ve.Args()[0].MustBool() {
 			i = 1
 		}
-		if strings.IndexByte("dxXo", d.letter) >= 0 {
+		// b and B are pcore's own code; the one point where it deliberately follows Ruby rather than C is the value 0
+		// with precision 0 (Ruby prints the digit 0, which also reads back)
+		if strings.IndexByte("dxXo", d.letter) >= 0 || (strings.IndexByte("bB", d.letter) >= 0 && !(i == 0 && d.prec == 0)) {
 			want := refInt(i, d)
 			if want != text {
 				cls := "int-ref-mismatch"
@@ -1203,19 +1208,17 @@ func execBack(c px.Context, directive string, i int64) core.Result {
 	if res == "fault" {
 		return core.Fail(res, "fault", "the Integer constructor raised a runtime fault")
 	}
-	if !d.ok || strings.IndexByte("dxXobB", d.letter) < 0 || d.width >= 0 || d.space || (i == 0 && d.prec == 0) {
+	if !d.ok || strings.IndexByte("dxXobB", d.letter) < 0 || d.width >= 0 || (i == 0 && d.prec == 0 && strings.IndexByte("dxXo", d.letter) >= 0) {
 		r.Pred = "n/a" // padded, blank-signed or empty renderings are not what the constructor is documented to read
 		return r
 	}
 	if res != "int "+strconv.FormatInt(i, 10) {
-		t := strings.TrimLeft(text, "+-")
-		prefixed := len(t) > 1 && t[0] == '0' && strings.IndexByte("xXbB", t[1]) >= 0
 		cls := "ctor-roundtrip"
-		if prefixed || !convertiblePattern.MatchString(text) {
-			// the constructor hands the text to strconv.ParseInt with the radix, which takes no prefix, and its
-			// signature (Convertible) admits hexadecimal digits only after a prefix and leading zeros only before octal
-			// digits (known finding C20-integer-ctor-text)
-			cls = "ctor-radix-text"
+		if (d.letter == 'x' || d.letter == 'X') && !d.sharp && !convertiblePattern.MatchString(text) {
+			// the signature of the constructor (Convertible) admits hexadecimal digits only after the 0x prefix, as
+			// Puppet's does: %x renderings with a digit a-f are not read back, %#x renderings are
+			// (known finding C20-integer-ctor-hex)
+			cls = "ctor-hex-unprefixed"
 		}
 		return core.Fail(res, cls, oneLine(fmt.Sprintf("%s of %d renders %q; new(Integer, %q, %d) gives %s", directive, i, text, text, radix, res)))
 	}
@@ -1223,7 +1226,7 @@ func execBack(c px.Context, directive string, i int64) core.Result {
 }
 
 // the Convertible pattern of the Integer constructor's signature, as documented in types/types.go (IntegerPattern)
-var convertiblePattern = regexp.MustCompile(`\A[+-]?\s*(?:(?:0|[1-9]\d*)|(?:0[xX][0-9A-Fa-f]+)|(?:0[0-7]+)|(?:0[bB][01]+))\z`)
+var convertiblePattern = regexp.MustCompile(`\A[+-]?\s*(?:(?:\d+)|(?:0[xX][0-9A-Fa-f]+)|(?:0[bB][01]+))\z`)
 
 func oneLine(s string) string {
 	return strings.Map(func(r rune) rune {
